@@ -119,8 +119,41 @@ def violation(res: dict, clause: str, detail: str, **witness: Any) -> dict:
     return res
 
 
+SEQ = "__sequence__"   # a history of scenarios executed in ONE process
+
+
+def seq_reductions(reductions: Callable) -> Callable:
+    """Reductions for documents that may be a sequence of scenarios (state
+    that leaks from one scenario into the next inside a process): drop
+    elements of the history; a single remaining scenario is reduced as usual."""
+    def red(doc: dict):
+        if SEQ not in doc:
+            yield from reductions(doc)
+            return
+        seq = doc[SEQ]
+        if len(seq) == 1:
+            yield seq[0]
+            return
+        for cand in list_deletions(seq[:-1], 0):
+            yield {SEQ: cand + [seq[-1]]}
+        for cand in list_deletions(seq, 1):
+            yield {SEQ: cand}
+    return red
+
+
 def safe_execute(engine: Any, doc: dict) -> dict:
     """Run engine.execute; a harness-side exception is a harness error."""
+    if SEQ in doc:
+        # scenarios one after the other in this process; the first violation
+        # (or harness error) among them is the result of the history
+        res = None
+        for i, d in enumerate(doc[SEQ]):
+            res = safe_execute(engine, d)
+            if res["violation"] is not None or "harness_error" in res:
+                if res["violation"] is not None:
+                    res["violation"]["at_history_index"] = i
+                break
+        return res
     try:
         res = engine.execute(doc)
     except BaseException as exc:  # noqa: BLE001
@@ -151,6 +184,9 @@ def _worker(engine_name: str, conn, root: bytes, hard_cap: float) -> None:
     die_with_parent()
     faulthandler.enable()
     engine = importlib.import_module(f"simkit.engines.{engine_name}")
+    import collections
+    history: collections.deque = collections.deque(maxlen=48)
+    sent_histories = 0
     while True:
         try:
             msg = conn.recv()
@@ -182,6 +218,12 @@ def _worker(engine_name: str, conn, root: bytes, hard_cap: float) -> None:
                     "doc": doc if (bad or want_doc) else None,
                     "events": res["events"] if (bad or want_doc == 2)
                     else None}
+            if res["violation"] is not None and sent_histories < 4:
+                # what this process executed before: needed if the violation
+                # does not show when the scenario runs alone
+                slim["history"] = list(history)
+                sent_histories += 1
+            history.append(doc)
             out.append(slim)
         conn.send(("done", out))
 
